@@ -288,6 +288,10 @@ type jsonComparingMatcher[T comparable] struct {
 }
 
 func (m *jsonComparingMatcher[T]) Match(value client.NormalValue) (bool, error) {
+	if value.IsNil() {
+		// the document has no value for the JSON field: the filter itself decides
+		return true, nil
+	}
 	if jsonVal, ok := value.JSON(); ok {
 		if val, ok := m.getValueFunc(jsonVal); ok {
 			return m.evalFunc(val, m.value), nil
@@ -304,6 +308,10 @@ type jsonTypeMatcher[T comparable] struct {
 }
 
 func (m *jsonTypeMatcher[T]) Match(value client.NormalValue) (bool, error) {
+	if value.IsNil() {
+		// the document has no value for the JSON field: the filter itself decides
+		return true, nil
+	}
 	if jsonVal, ok := value.JSON(); ok {
 		_, ok := m.getValueFunc(jsonVal)
 		return ok == m.shouldMatch, nil
@@ -317,6 +325,10 @@ type jsonBoolMatcher struct {
 }
 
 func (m *jsonBoolMatcher) Match(value client.NormalValue) (bool, error) {
+	if value.IsNil() {
+		// the document has no value for the JSON field: the filter itself decides
+		return true, nil
+	}
 	if jsonVal, ok := value.JSON(); ok {
 		boolVal, ok := jsonVal.Bool()
 		if ok {
@@ -332,6 +344,10 @@ type jsonNullMatcher struct {
 }
 
 func (m *jsonNullMatcher) Match(value client.NormalValue) (bool, error) {
+	if value.IsNil() {
+		// the document has no value for the JSON field: the filter itself decides
+		return true, nil
+	}
 	if jsonVal, ok := value.JSON(); ok {
 		return jsonVal.IsNull() == m.matchNull, nil
 	}
